@@ -519,8 +519,59 @@ def inline(ctx, f: FuncInfo, want: Callable[[FuncInfo], bool] | None = None) -> 
         inlined_funcs.append(h)
         return out
 
+    def hoist_arg_helper(st):
+        """`[await] outer(<names>, helper(<names>))` with helper a nested function of f: `__a_helper = helper(..)` in front
+        of the statement (the callee expression and the other arguments are plain names / attribute chains / constants,
+        so nothing that is evaluated before the helper call can observe the move)."""
+        v = st.value if isinstance(st, (ast.Expr, ast.Assign, ast.Return)) else None
+        if isinstance(v, ast.Await):
+            v = v.value
+        if not isinstance(v, ast.Call) or v.keywords:
+            return None
+
+        def pure(e):
+            while isinstance(e, ast.Attribute):
+                e = e.value
+            return isinstance(e, (ast.Name, ast.Constant))
+
+        if not pure(v.func):
+            return None
+        nested = getattr(f, "nested", None) or {}
+        hits = [a for a in v.args if isinstance(a, ast.Call) and isinstance(a.func, ast.Name) and a.func.id in nested and not a.keywords and all(pure(x) for x in a.args)]
+        if len(hits) != 1 or not all(pure(a) or a is hits[0] for a in v.args):
+            return None
+        c = hits[0]
+        if nested[c.func.id].is_async:
+            return None
+        lname = f"__a_{c.func.id.strip('_')}"
+        if lname in caller_names:
+            return None
+        caller_names.add(lname)
+        asg = ast.copy_location(ast.Assign(targets=[ast.copy_location(ast.Name(id=lname, ctx=ast.Store()), c)], value=c), st)
+        st2 = copy.copy(st)
+        st2.value = _swap(st.value, c, ast.copy_location(ast.Name(id=lname, ctx=ast.Load()), c))
+        for root_ in (asg, st2):
+            for par_ in ast.walk(root_):
+                for ch_ in ast.iter_child_nodes(par_):
+                    parents[ch_] = par_
+        if st in parents:
+            parents[st2] = parents[st]
+            parents[asg] = parents[st]
+        changed[0] = True
+        return asg, st2
+
     def rebuild(stmts: list, depth: int, active: tuple) -> list:
         new = []
+        stmts = list(stmts)
+        i_ = 0
+        while i_ < len(stmts):
+            st0 = stmts[i_]
+            if depth < MAX_DEPTH and getattr(f, "nested", None):
+                pair_ = hoist_arg_helper(st0)
+                if pair_ is not None:
+                    stmts[i_ : i_ + 1] = list(pair_)
+                    continue
+            i_ += 1
         for st in stmts:
             ex = expand(st, depth, active)
             if ex is not None:
